@@ -8,19 +8,19 @@ open AwsVerif.DateTime
 theorem initFromStr_iso (s : List Nat) (pf : Fmt) (tm : Tm) (off : Int) (hl : s.length ≤ 100) (hpf : pf ≠ .rfc822)
     (hp : parseIso s = some (tm, off)) :
     initFromStr s pf = .ok (mkDateTime (timegm tm - off) 0 true []) := by
-  have hl' : ¬ s.length > maxStrLen := by unfold maxStrLen; omega
+  have hl' : ¬ s.length > maxStrLen := by unfold maxStrLen Gen.Date.AWS_DATE_TIME_STR_MAX_LEN; omega
   cases pf <;> simp [initFromStr, hl', hp] at hpf ⊢
 
 theorem initFromStr_rfc (s : List Nat) (pf : Fmt) (tm : Tm) (tz : List Nat) (utc : Bool) (hl : s.length ≤ 100)
     (hpf : pf = .rfc822 ∨ pf = .autoDetect) (hiso : parseIso s = none) (hr : parseRfc822 s = some (tm, tz, utc)) :
     initFromStr s pf = .ok (mkDateTime (timegm tm - (if utc then rfcOffset tz else 0)) 0 utc tz) := by
-  have hl' : ¬ s.length > maxStrLen := by unfold maxStrLen; omega
+  have hl' : ¬ s.length > maxStrLen := by unfold maxStrLen Gen.Date.AWS_DATE_TIME_STR_MAX_LEN; omega
   rcases hpf with h | h <;> subst h <;> simp [initFromStr, hl', hiso, hr]
 
 theorem initFromStr_fail (s : List Nat) (pf : Fmt) (hl : s.length ≤ 100)
     (hiso : parseIso s = none) (hr : parseRfc822 s = none) :
     initFromStr s pf = .error .invalidDateStr := by
-  have hl' : ¬ s.length > maxStrLen := by unfold maxStrLen; omega
+  have hl' : ¬ s.length > maxStrLen := by unfold maxStrLen Gen.Date.AWS_DATE_TIME_STR_MAX_LEN; omega
   cases pf <;> simp [initFromStr, hl', hiso, hr]
 
 theorem parseIso_nondigit (c : Nat) (r : List Nat) (h : isDigit c = false) : parseIso (c :: r) = none := by
@@ -216,15 +216,17 @@ theorem rfc_run (t : Int) (h0 : 0 ≤ t) (h1 : t ≤ 253402300799) (z : List Nat
     rrun_year4 _ _ _ _ 32 _ _ _ (isDigit_dig (by omega)) (isDigit_dig (by omega)) (isDigit_dig (by omega)) (isDigit_dig (by omega)) isSpace_32,
     rrun_clock _ _ _ _ _ _ 32 _ _ _ (isDigit_dig (by omega)) (isDigit_dig (by omega)) (isDigit_dig (by omega))
       (isDigit_dig (by omega)) (isDigit_dig (by omega)) (isDigit_dig (by omega)) isSpace_32,
-    rrun_tz z hz _ _ _ (by simp; omega)]
+    rrun_tz z hz _ _ _ (by simp [Gen.Date.tzMaxChars]; omega)]
   simp only [List.nil_append]
   congr 1
   have v1 := val2 ({} : Tm).mday d rfl (by omega)
   have v2 := val4 ({} : Tm).year y rfl (by omega)
+  have v2' : ((y : Int) - (Gen.Date.rfcYear4Sub : Nat) + tmYearBase) = y := by
+    simp only [Gen.Date.rfcYear4Sub, tmYearBase]; omega
   have v3 := val2 ({} : Tm).hour h rfl (by omega)
   have v4 := val2 ({} : Tm).min mi rfl (by omega)
   have v5 := val2 ({} : Tm).sec s rfl (by omega)
-  simp only [v1, v2, v3, v4, v5]
+  simp only [v1, v2, v2', v3, v4, v5]
 
 
 /-- RFC 822 text of an instant followed by a zone the reader takes for UTC -/
